@@ -48,14 +48,23 @@ static void parse_path(const char* t, Path& p)
   free(dup);
 }
 
+// d<m>_<e> = m * 2^e; the values outside the Coq model: dinf, d-inf, d-0
+static double dbl_of(const char* t)
+{
+  if(!strcmp(t, "dinf")) return INFINITY;
+  if(!strcmp(t, "d-inf")) return -INFINITY;
+  if(!strcmp(t, "d-0")) return -0.0;
+  long long m = strtoll(t + 1, 0, 10); const char* u = strchr(t, '_'); int e = atoi(u + 1);
+  return ldexp((double)m, e);
+}
+
 // the scalar assignment operators (operator=(bool) ... operator=(uint64)), not operator=(const Variant&)
 static void assign_scalar(Variant& d, const char* t)
 {
   switch(t[0]) {
   case 'n': d.clear(); break;
   case 'b': d = (t[1] == '1'); break;
-  case 'd': { long long m = strtoll(t + 1, 0, 10); const char* u = strchr(t, '_'); int e = atoi(u + 1);
-              d = ldexp((double)m, e); break; }
+  case 'd': d = dbl_of(t); break;
   case 'i': d = (int)strtol(t + 1, 0, 10); break;
   case 'u': d = (uint)strtoul(t + 1, 0, 10); break;
   case 'I': d = (int64)strtoll(t + 1, 0, 10); break;
@@ -411,8 +420,7 @@ static void op(long c, long, vh::Tok& t)
     switch(t.v[2][0]) {
     case 'n': new (&vars[i]) Variant(); break;
     case 'b': new (&vars[i]) Variant(t.v[2][1] == '1'); break;
-    case 'd': { long long m = strtoll(t.v[2] + 1, 0, 10); const char* u = strchr(t.v[2], '_'); int e = atoi(u + 1);
-                new (&vars[i]) Variant(ldexp((double)m, e)); break; }
+    case 'd': new (&vars[i]) Variant(dbl_of(t.v[2])); break;
     case 'i': new (&vars[i]) Variant((int)strtol(t.v[2] + 1, 0, 10)); break;
     case 'u': new (&vars[i]) Variant((uint)strtoul(t.v[2] + 1, 0, 10)); break;
     case 'I': new (&vars[i]) Variant((int64)strtoll(t.v[2] + 1, 0, 10)); break;
